@@ -27,12 +27,13 @@ RULE = {'C17': (
     'non-trivial = at least one call checked after construction')}
 STATE_MEASURE = ('(#chunks bucket, stride, spike-on-bound?, n class, unknown cluster?, subset?, '
                  'chunk restriction?, draw strategy)')
-ASSUMPTIONS = ['requested cluster lists hold no duplicate id',
+ASSUMPTIONS = [
                'the chunk-grid clause requires kept indices = range(0, n_chunks, s) for some s >= 1 '
                'and at most the requested number; it does not require a particular s']
 EXPECTED_PROBES = {'C17': ['spike_on_bound', 'stride_not_dividing', 'unknown_cluster',
                            'subsampled_cluster', 'exactly_n_eligible', 'empty_request',
-                           'subset_and_chunks', 'kept_more_than_chunks']}
+                           'subset_and_chunks', 'kept_more_than_chunks',
+                           'cluster_requested_twice']}
 
 
 def gen(rng, prop, tier):
@@ -64,6 +65,8 @@ def gen(rng, prop, tier):
             req = sorted(set(ids + [rng.randint(0, 14)]))
         if rng.random() < 0.1:
             req = []
+        if req and rng.random() < 0.12:
+            req = req + [rng.choice(req) for _ in range(rng.randint(1, 2))]   # an id named twice
         rng.shuffle(req)
         n = rng.choice([None, 0, 1, 2, 3, 5, 10, 1000])
         subset = None
@@ -202,7 +205,9 @@ def execute(plan, ctx):
                     if op['chunks']:
                         ctx.probe('subset_and_chunks')
                 gs = set(g)
-                for cl in op['clusters']:
+                if len(set(op['clusters'])) < len(op['clusters']):
+                    ctx.probe('cluster_requested_twice')
+                for cl in sorted(set(op['clusters'])):
                     members = spc.get(cl, [])
                     if not members:
                         ctx.probe('unknown_cluster')
